@@ -7,6 +7,7 @@
 import Ladybug.DrvCore
 import Ladybug.Model.Psychro
 import Ladybug.Model.PsychroObj
+import Ladybug.Model.PsychroChart
 
 open Drv Psychro
 
@@ -83,6 +84,12 @@ def handle (toks : List String) : String :=
   | "plot" :: useIp :: rest =>
     match (floats rest).bind (chart? useIp) with
     | some (c, [t, rh]) => let r := c.plotPoint t rh; showFs [r.1, r.2]
+    | _ => "bad-op"
+  | "rhline" :: useIp :: rest =>
+    -- rhline <ip> <bx> <by> <xd> <yd> <tmin> <p> <hrMax> <rh> <temps ...>  ->  x y of every vertex below the cut-off
+    match (floats rest).bind (chart? useIp) with
+    | some (c, hrMax :: rh :: temps) =>
+      showFs ((c.rhVertices hrMax rh temps).flatMap fun q => [q.1, q.2])
     | _ => "bad-op"
   | "datapt" :: useIp :: rest =>
     match (floats rest).bind (chart? useIp) with
